@@ -76,6 +76,8 @@ class AsyncChannel(BaseChannel):
         if self.channel_log:
             self.channel_log.write(buf)
 
+        buf = self._hold_back_partial_ansi(buf=buf)
+
         if b"\x1b" in buf.lower():
             buf = self._strip_ansi(buf=buf)
 
